@@ -1,28 +1,26 @@
-use crate::block_parser::{BlocksFromCommentsParser, BlocksParser, parse_blocks_from_comments};
+use crate::block_parser::{BlocksParser, parse_blocks_from_comments};
 use crate::blocks::Block;
 use crate::language_parsers::{Comment, CommentsParser, TreeSitterCommentsParser};
 use anyhow::Context;
-use itertools::Itertools;
 use tree_sitter::StreamingIterator;
 
 /// Returns a [`BlocksParser`] for Markdown.
 pub(super) fn parser() -> anyhow::Result<impl BlocksParser> {
-    let md_blocks_parser = BlocksFromCommentsParser::new(markdown_comments_parser()?);
-    Ok(MdParser::new(md_blocks_parser))
+    Ok(MdParser::new(markdown_comments_parser()?))
 }
 
 /// Parses Markdown and HTML comments from Markdown.
 ///
 /// HTML comments are parsed from valid [HTML blocks](https://github.github.com/gfm/#html-block).
 struct MdParser<C: CommentsParser> {
-    md_blocks_parser: BlocksFromCommentsParser<C>,
+    md_comments_parser: C,
     md_tree_sitter_parser: tree_sitter::Parser,
     md_html_blocks_query: tree_sitter::Query,
     html_comments_parser: TreeSitterCommentsParser,
 }
 
 impl<C: CommentsParser> MdParser<C> {
-    fn new(md_parser: BlocksFromCommentsParser<C>) -> Self {
+    fn new(md_comments_parser: C) -> Self {
         let mut md_tree_sitter_parser = tree_sitter::Parser::new();
         let markdown_lang = tree_sitter_md::LANGUAGE.into();
         md_tree_sitter_parser
@@ -43,16 +41,11 @@ impl<C: CommentsParser> MdParser<C> {
             }),
         );
         Self {
-            md_blocks_parser: md_parser,
+            md_comments_parser,
             md_tree_sitter_parser,
             md_html_blocks_query,
             html_comments_parser,
         }
-    }
-
-    fn parse_html_blocks(&mut self, contents: &str) -> anyhow::Result<Vec<Block>> {
-        let html_comments = self.parse_html_comments(contents)?;
-        parse_blocks_from_comments(html_comments.into_iter())
     }
 
     fn parse_html_comments(&mut self, contents: &str) -> anyhow::Result<Vec<Comment>> {
@@ -85,10 +78,13 @@ impl<C: CommentsParser> MdParser<C> {
 
 impl<C: CommentsParser> BlocksParser for MdParser<C> {
     fn parse(&mut self, contents: &str) -> anyhow::Result<Vec<Block>> {
-        let md_blocks = self.md_blocks_parser.parse(contents)?;
-        let html_blocks = self.parse_html_blocks(contents)?;
-
-        Ok(md_blocks.into_iter().merge(html_blocks).collect())
+        // Markdown has two comment syntaxes (`[//]: # (...)` link definitions and HTML comments).
+        // A block may open in one and close in the other, so all comments are paired together,
+        // in source order, on one stack.
+        let mut comments: Vec<Comment> = self.md_comments_parser.parse(contents).collect();
+        comments.extend(self.parse_html_comments(contents)?);
+        comments.sort_by_key(|comment| comment.source_range.start);
+        parse_blocks_from_comments(comments.into_iter())
     }
 }
 
